@@ -76,6 +76,19 @@ m("c08-report-2-bytes", SS, "map(take(3u8), Into::into)(data)?;", "map(take(2u8)
 m("c08-tagblock-mandatory", SS, 'opt(delimited(tag("\\\\"), take_until("\\\\"), tag("\\\\")))(data)?;', 'delimited(tag("\\\\"), take_until("\\\\"), tag("\\\\"))(data)?;', ["C08"])
 m("c08-id-mandatory", SS, "let (data, message_id) = opt(parse_u8_digit)(data)?;", "let (data, message_id) = map(parse_u8_digit, Some)(data)?;", ["C08"])
 n("n-c08-fill-le-5", SS, "|val| *val < 6", "|val| *val <= 5", ["C08"])
+# ---- C05 / C06 / C17
+m("c06-revert-F1", SS, "ais_sentence.fragment_number.checked_sub(self.fragment_number) != Some(1)", "ais_sentence.fragment_number - self.fragment_number != 1", ["C06"])
+m("c06-revert-F2", SS, "                // The group has been delivered; nothing may continue it\n                self.fragment_number = 0;\n", "", ["C06"])
+m("c06-revert-F8", SS, "        // Only a fragment whose payload has been stored advances the group\n        self.fragment_number = ais_sentence.fragment_number;\n        Ok(())", "        Ok(())", ["C06"])
+m("c06-revert-F8b", SS, "        #[cfg(any(feature = \"std\", feature = \"alloc\"))]\n        self.data.extend_from_slice(&ais_sentence.data);", "        self.fragment_number = ais_sentence.fragment_number;\n        #[cfg(any(feature = \"std\", feature = \"alloc\"))]\n        self.data.extend_from_slice(&ais_sentence.data);", ["C06"])
+m("c06-id-check-removed", SS, "        if self.message_id != ais_sentence.message_id {\n            return Err(\"Message ID out of sequence\".into());\n        }\n", "", ["C06", "C05"])
+m("c05-is-fragment-gt-1", SS, "self.num_fragments != 1", "self.num_fragments > 1", ["C05"])
+m("c05-data-not-cleared", SS, "                self.fragment_number = 0;\n                self.data = AisRawData::default();\n            }", "                self.fragment_number = 0;\n            }", ["C05", "C06"])
+m("c05-incomplete-to-some", SS, "            AisFragments::Incomplete(_) => None,", "            AisFragments::Incomplete(s) => Some(s),", ["C05"])
+m("c17-reset-on-unfragmented", SS, "            if decode {\n                let unarmored", "            if !ais_sentence.is_fragment() {\n                self.fragment_number = 0;\n            }\n            if decode {\n                let unarmored", ["C17"])
+m("c05-fill-from-first", SS, "messages::unarmor(&ais_sentence.data, ais_sentence.fill_bit_count as usize)?;", "messages::unarmor(&ais_sentence.data, ais_sentence.num_fragments as usize)?;", ["C05"])
+m("c06-accept-gap", SS, ".checked_sub(self.fragment_number) != Some(1)", ".checked_sub(self.fragment_number).map_or(true, |d| d == 0 || d > 2)", ["C06"])
+n("n-c06-wrapping-form", SS, "if ais_sentence.fragment_number.checked_sub(self.fragment_number) != Some(1) {", "if self.fragment_number == u8::MAX || ais_sentence.fragment_number != self.fragment_number + 1 {", ["C05", "C06", "C17"])
 # ---- neutral edits
 n("n-t16-gt-51", S + "assignment_mode_command.rs", "if remaining_bits >= 52 {", "if remaining_bits > 51 {", ["C04", "C14"])
 n("n-t12-error-kind", S + "addressed_safety_related.rs", "nom::error::ErrorKind::Eof,", "nom::error::ErrorKind::Digit,", ["C04", "C14", "C09"])
@@ -83,7 +96,13 @@ n("n-struct-literal-order", S + "utc_date_inquiry.rs", "                message_
 
 
 def run(cmd, **kw):
-    return subprocess.run(cmd, shell=True, stdout=subprocess.PIPE, stderr=subprocess.STDOUT, text=True, **kw)
+    try:
+        return subprocess.run(cmd, shell=True, stdout=subprocess.PIPE, stderr=subprocess.STDOUT, text=True, timeout=400, **kw)
+    except subprocess.TimeoutExpired as e:
+        class R:
+            returncode = 124
+            stdout = "TIMEOUT " + str(e.stdout)[-200:]
+        return R()
 
 
 def apply(tmp, file, old, new):
